@@ -59,12 +59,56 @@ pub proof fn lemma_kick_line(src: Seq<char>, channel: &str, ku: &&&str, comment:
     assert(dv::<&&str>(&channel) == channel@);
     assert(dv::<&&&&str>(&ku) == (***ku)@);
 }
-// one victim: every member of the channel as it is after all removals (if it still exists) gets the line once, then the victim gets it
+// one victim: every member of the channel as it is after all removals (if it still exists) and the victim get the line, one copy each,
+// nobody else gets anything (the order among the recipients is not part of the statement)
+pub open spec fn kick_audience(s: VolatileState, c: String, victim: String) -> Set<String> {
+    (if s.channels@.contains_key(c) { s.channels@[c].users@.dom() } else { Set::<String>::empty() }).insert(victim)
+}
 pub open spec fn kick_announce_step(s: VolatileState, c: String, victim: String, line: Seq<char>, before: Seq<(int, Seq<char>)>, after: Seq<(int, Seq<char>)>) -> bool {
-    exists|mid: Seq<(int, Seq<char>)>|
-        #![trigger mid.push((s.users@[victim].sender.id(), line))]
-        (if s.channels@.contains_key(c) { delivered_to_members(before, mid, s, s.channels@[c].users@.dom(), line) } else { mid == before })
-        && after == mid.push((s.users@[victim].sender.id(), line))
+    delivered_to_members(before, after, s, kick_audience(s, c, victim), line)
+}
+// the two ways the code may go about it: members first and then the victim, or the victim first
+pub proof fn lemma_kick_step_either(s: VolatileState, c: String, victim: String, line: Seq<char>, a: Seq<(int, Seq<char>)>, ls: Seq<(int, Seq<char>)>, le: Seq<(int, Seq<char>)>, z: Seq<(int, Seq<char>)>)
+    requires
+        s.channels@.contains_key(c) ==> !s.channels@[c].users@.contains_key(victim),
+        if s.channels@.contains_key(c) { delivered_to_members(ls, le, s, s.channels@[c].users@.dom(), line) } else { le == ls },
+        (ls == a && z == le.push((s.users@[victim].sender.id(), line))) || (ls == a.push((s.users@[victim].sender.id(), line)) && z == le),
+    ensures kick_announce_step(s, c, victim, line, a, z)
+{
+    let f = |n: String| (s.users@[n].sender.id(), line);
+    let members = if s.channels@.contains_key(c) { s.channels@[c].users@.dom() } else { Set::<String>::empty() };
+    let o1: Seq<String> = if s.channels@.contains_key(c) {
+        choose|order: Seq<String>| #![trigger order.no_duplicates()] order.no_duplicates() && (forall|n: String| order.contains(n) <==> members.contains(n)) && le == ls + order.map_values(f)
+    } else { Seq::<String>::empty() };
+    assert(o1.no_duplicates() && (forall|n: String| o1.contains(n) <==> members.contains(n)) && le =~= ls + o1.map_values(f));
+    assert(!o1.contains(victim));
+    if ls == a {
+        let o2 = o1.push(victim);
+        assert(o2.map_values(f) =~= o1.map_values(f).push(f(victim)));
+        assert(z =~= a + o2.map_values(f));
+        assert forall|n: String| o2.contains(n) <==> kick_audience(s, c, victim).contains(n) by {
+            if o2.contains(n) { let i = choose|i: int| 0 <= i < o2.len() && o2[i] == n; if i < o1.len() { assert(o1[i] == n); assert(o1.contains(n)); } }
+            if members.contains(n) { assert(o1.contains(n)); let i = choose|i: int| 0 <= i < o1.len() && o1[i] == n; assert(o2[i] == n); }
+            if n == victim { assert(o2[o1.len() as int] == n); }
+        }
+        assert(o2.no_duplicates());
+        assert(delivered_to_members(a, z, s, kick_audience(s, c, victim), line));
+    } else {
+        let o2 = seq![victim] + o1;
+        assert(o2.map_values(f) =~= seq![f(victim)] + o1.map_values(f));
+        assert(z =~= a + o2.map_values(f));
+        assert forall|n: String| o2.contains(n) <==> kick_audience(s, c, victim).contains(n) by {
+            if o2.contains(n) { let i = choose|i: int| 0 <= i < o2.len() && o2[i] == n; if i > 0 { assert(o1[i - 1] == n); assert(o1.contains(n)); } }
+            if members.contains(n) { assert(o1.contains(n)); let i = choose|i: int| 0 <= i < o1.len() && o1[i] == n; assert(o2[i + 1] == n); }
+            if n == victim { assert(o2[0] == n); }
+        }
+        assert(o2.no_duplicates()) by {
+            assert forall|i: int, j: int| 0 <= i < j < o2.len() implies o2[i] != o2[j] by {
+                if i == 0 { assert(o1[j - 1] == o2[j]); assert(o1.contains(o2[j])); } else { assert(o1[i - 1] == o2[i] && o1[j - 1] == o2[j]); }
+            }
+        }
+        assert(delivered_to_members(a, z, s, kick_audience(s, c, victim), line));
+    }
 }
 // the victims in the order they were kicked: logs[i] -> logs[i+1] is the announcement of victims[i]
 pub open spec fn kick_announced(s: VolatileState, c: String, src: Seq<char>, channel: Seq<char>, comment: Option<&str>, victims: Seq<Seq<char>>, logs: Seq<Seq<(int, Seq<char>)>>) -> bool {
@@ -354,6 +398,9 @@ impl MainState {
                     }
                     lemma_kick_line(src, channel, ku, comment, kick_msg);
                 }
+//@before ~if let Some\(chanobj\) = state\.channels\.get\(channel\) \{ #2
+                // the log when the fan-out to the remaining members starts (wherever the copy for the victim is sent: before or after)
+                let ghost log_s = outbox.log;
 //@loop ~for nick in chanobj\.users\.keys\(\) iter=it4
                         invariant
                             *state == fin, state_wf(fin),
@@ -367,7 +414,7 @@ impl MainState {
                             forall|i: int| 0 <= i < order.len() ==> chanobj.users@.dom().contains(#[trigger] order[i]),
                             forall|a: int| 0 <= a < it4.index@ ==> order[a] == *#[trigger] it4.seq()[a],
                             line == disp::<String>(src, kick_msg),
-                            outbox.log == log_a + order.map_values(|n: String| (fin.users@[n].sender.id(), line)), // @prop C09,C04
+                            outbox.log == log_s + order.map_values(|n: String| (fin.users@[n].sender.id(), line)), // @prop C09,C04
 //@after ~for nick in chanobj\.users\.keys\(\)
                         proof {
                             assert(chanobj.users@.dom().contains(*nick));
@@ -384,21 +431,27 @@ impl MainState {
                     proof {
                         assert(order.len() == chanobj.users@.dom().len());
                         lemma_nodup_subset_full(order, chanobj.users@.dom());
-                        assert(delivered_to_members(log_a, outbox.log, fin, fin.channels@[ck].users@.dom(), line));
+                        assert(delivered_to_members(log_s, outbox.log, fin, fin.channels@[ck].users@.dom(), line));
                     }
 //@afterblock ~if let Some\(chanobj\) = state\.channels\.get\(channel\) \{ #2
-                let ghost mid = outbox.log;
+                let ghost log_e = outbox.log;
                 proof {
                     assert(gone(sk(*kk[j3])));
                     assert(member(*old(state), sk(*kk[j3]), ck));
                     assert(old(state).users@.contains_key(sk(*kk[j3])));
-                    assert(if fin.channels@.contains_key(ck) { delivered_to_members(log_a, mid, fin, fin.channels@[ck].users@.dom(), line) } else { mid == log_a });
+                    assert(if fin.channels@.contains_key(ck) { delivered_to_members(log_s, log_e, fin, fin.channels@[ck].users@.dom(), line) } else { log_e == log_s });
                 }
 //@endloop ~for ku in &kicked #2
                 proof {
                     let v = (***ku)@;
                     assert(string_of(v) == sk(*kk[j3]));
-                    assert(outbox.log == mid.push((fin.users@[string_of(v)].sender.id(), line))); // @prop C09,C04
+                    let x = (fin.users@[string_of(v)].sender.id(), line);
+                    // members first and then the victim, or the other way round
+                    assert((log_s == log_a && outbox.log == log_e.push(x)) || (log_s == log_a.push(x) && outbox.log == log_e)); // @prop C09,C04
+                    assert(fin.channels@.contains_key(ck) ==> !fin.channels@[ck].users@.contains_key(string_of(v))) by {
+                        if fin.channels@.contains_key(ck) && fin.channels@[ck].users@.contains_key(string_of(v)) { assert(member(fin, string_of(v), ck)); }
+                    }
+                    lemma_kick_step_either(fin, ck, string_of(v), line, log_a, log_s, log_e, outbox.log);
                     assert(kick_announce_step(fin, ck, string_of(v), line, log_a, outbox.log)); // @prop C09,C04
                     let vs0 = vs; let logs0 = logs;
                     vs = vs0.push(v);
